@@ -145,9 +145,13 @@ def validate(path, wd, tag):
     res = dict(lines=len(lines), segments=len(set(vlib.seg_of(x) for x in lines)), accepted_segments=0, states=0,
                violations=[], inconclusive=[])
     cur = lines
-    for rnd in range(8):
+    for rnd in range(3):
         if not cur:
             break
+        if rnd == 2 and res["violations"]:
+            # two violating scenarios of this file are diagnosed and reported; the rest of it is left unjudged
+            res["unjudged"] = len(set(vlib.seg_of(x) for x in cur))
+            return res
         tp = os.path.join(wd, "cur-%s.ndjson" % tag)
         vlib.write_lines(tp, cur)
         r = vlib.tlc("Trace_Announce", trace_cfg([]), workers=1, timeout=900, files={"trace.ndjson": tp})
@@ -168,7 +172,12 @@ def validate(path, wd, tag):
         sp = os.path.join(wd, "seg-%s.ndjson" % tag)
         vlib.write_lines(sp, segl)
         clause = None
-        for off in [[c] for c in CLAUSES] + [["args", "tok", "dst"], ["stopped", "dst", "tok"], CLAUSES]:
+        # try first the clauses that guard the rejected kind of event
+        kind = (json.loads(line).get("e") if line else "") or ""
+        first = {"AnnounceSent": ["tok", "dst", "args", "stopped"], "PeersDelivered": ["once", "right"],
+                 "Finished": ["order", "owed"], "PeersClosed": ["order", "owed"], "End": ["order", "owed"]}.get(kind, ["owed"])
+        order = first + [c for c in CLAUSES if c not in first]
+        for off in [[c] for c in order] + [["args", "tok", "dst"], ["stopped", "dst", "tok"], CLAUSES]:
             r2 = vlib.tlc("Trace_Announce", trace_cfg(off), workers=1, timeout=300, files={"trace.ndjson": sp})
             if r2.clean:
                 clause = "+".join(off) if len(off) < len(CLAUSES) else "several"
@@ -180,7 +189,7 @@ def validate(path, wd, tag):
             res["violations"].append((clause, sg, line, segl))
         cur = [x for x in cur if vlib.seg_of(x) != sg]
     else:
-        res["inconclusive"].append("gave up after 8 validation rounds on trace %s" % tag)
+        res["inconclusive"].append("gave up after 3 validation rounds on trace %s" % tag)
         return res
     res["accepted_segments"] = len(set(vlib.seg_of(x) for x in cur))
     return res
